@@ -17,6 +17,8 @@ import (
 	"os/exec"
 	"runtime"
 	"sort"
+	"sync"
+	"sync/atomic"
 	"time"
 
 	sdkmath "cosmossdk.io/math"
@@ -51,6 +53,12 @@ type History struct {
 	Token2   string `json:"token2"`
 	DeployAt int    `json:"deployAt"`
 }
+
+// ChurnAddr holds a genesis contract whose only function is a loop of 300 SLOAD + SSTORE over four slots: every
+// iteration builds store keys on the execution path, and every value written depends on every value read before.
+var ChurnAddr = common.HexToAddress("0xc0000000000000000000000000000000000c4a01")
+
+var churnCode, _ = hex.DecodeString("60005b8060031680546001019055600101806101" + "2c116002" + "5700")
 
 func digest(parts ...string) string {
 	h := sha256.New()
@@ -122,6 +130,7 @@ func Generate(seed int64, ti int, blocks int, out *trace.W, stats map[string]int
 		o.CpcDeployErc20Native = true
 		o.CpcDeployStaking = true
 		o.CpcWhitelist = []string{chain.NewAcct("a1").Acc().String()}
+		o.Contracts = append(o.Contracts, chain.GenContract{Addr: ChurnAddr, Code: churnCode})
 		if ti == 0 {
 			// an empty vesting account that is expired by every header time (year 2100) but not yet by the wall clock
 			wallEnd = time.Now().Unix() + 3
@@ -176,6 +185,23 @@ func Generate(seed int64, ti int, blocks int, out *trace.W, stats map[string]int
 			txs = append(txs, bz)
 			nextNonce["a0"] = sp.Nonce + 1
 			stats["wall-clock-sensitive-tx"]++
+		}
+		if r.Intn(3) > 0 {
+			// storage churn: hundreds of store-key constructions on the execution path of one transaction
+			ai := r.Intn(len(c.Accts))
+			a := c.Accts[ai]
+			name := fmt.Sprintf("a%d", ai)
+			seq, ok := nextNonce[name]
+			if !ok {
+				seq = c.Seq(a.Addr)
+			}
+			to := ChurnAddr
+			txd := &ethtypes.LegacyTx{Nonce: seq, GasPrice: big.NewInt(baseFee + 2), Gas: 300000, To: &to, Value: big.NewInt(0)}
+			txs = append(txs, c.EthTx(a, txd))
+			if c.Bal(a.Addr, chain.Denom).Int64() >= 300000*(baseFee+2) {
+				nextNonce[name] = seq + 1
+			}
+			stats["storage-churn-tx"]++
 		}
 		for i := 0; i < n; i++ {
 			switch k := r.Intn(20); {
@@ -290,6 +316,59 @@ func rpcLoad(c *chain.Chain, h *History, i int, next [][]byte) {
 	}
 }
 
+// serveDuring makes the node answer gRPC queries on other goroutines WHILE fn (the execution and commit of a block)
+// runs, as every public node does: storage, code, balance, account and eth_call requests about accounts the block
+// has nothing to do with. Answers are discarded; nothing of it may influence what the block computes.
+func serveDuring(c *chain.Chain, h *History, workers int, fn func()) (served int64) {
+	var stop int32
+	var wg sync.WaitGroup
+	var n int64
+	token := common.Address{}
+	if a := c.App.CPCKeeper.GetErc20CustomPrecompiledContractAddressByMinDenom(c.Ctx(), chain.Denom); a != nil {
+		token = *a
+	}
+	sel := crypto.Keccak256([]byte("balanceOf(address)"))[:4]
+	for wk := 0; wk < workers; wk++ {
+		wg.Add(1)
+		go func(wk int) {
+			defer wg.Done()
+			for i := 0; atomic.LoadInt32(&stop) == 0; i++ {
+				addr := drivers.FreshAddr(200 + (wk*131+i)%50)
+				var path string
+				var bz []byte
+				switch (wk + i) % 5 {
+				case 0, 1:
+					path = "/ethermint.evm.v1.Query/Storage"
+					bz, _ = (&evmtypes.QueryStorageRequest{Address: addr.Hex(), Key: common.BigToHash(big.NewInt(int64(i % 7))).Hex()}).Marshal()
+				case 2:
+					path = "/ethermint.evm.v1.Query/Code"
+					bz, _ = (&evmtypes.QueryCodeRequest{Address: addr.Hex()}).Marshal()
+				case 3:
+					path = "/ethermint.evm.v1.Query/Balance"
+					bz, _ = (&evmtypes.QueryBalanceRequest{Address: addr.Hex()}).Marshal()
+				default:
+					data := append(append([]byte{}, sel...), common.LeftPadBytes(addr.Bytes(), 32)...)
+					args, _ := json.Marshal(map[string]interface{}{"from": addr.Hex(), "to": token.Hex(), "data": "0x" + hex.EncodeToString(data)})
+					path = "/ethermint.evm.v1.Query/EthCall"
+					bz, _ = (&evmtypes.EthCallRequest{Args: args, GasCap: 25_000_000}).Marshal()
+				}
+				func() {
+					defer func() { _ = recover() }()
+					_, _ = c.App.Query(context.Background(), &abci.RequestQuery{Path: path, Data: bz})
+				}()
+				atomic.AddInt64(&n, 1)
+			}
+		}(wk)
+	}
+	fn()
+	atomic.StoreInt32(&stop, 1)
+	wg.Wait()
+	return atomic.LoadInt64(&n)
+}
+
+// Served counts the requests answered during block execution by the last "r7" replicas.
+var Served int64
+
 func replay(h *History, rep string, node func(*chain.Opts), reloadAt int, load bool, emit func(trace.M)) {
 	o := chain.DefaultOpts()
 	o.NAccts, o.NVals, o.ValBond, o.MaxGas = h.NAccts, h.NVals, h.ValBond, h.MaxGas
@@ -304,7 +383,12 @@ func replay(h *History, rep string, node func(*chain.Opts), reloadAt int, load b
 		if load {
 			rpcLoad(c, h, i, txs)
 		}
-		bo := c.Deliver(txs...)
+		var bo chain.BlockOut
+		if rep == "r7" {
+			Served += serveDuring(c, h, 8, func() { bo = c.Deliver(txs...) })
+		} else {
+			bo = c.Deliver(txs...)
+		}
 		emit(BlockRecord(rep, bo))
 		if bo.Panic != nil || bo.Err != nil {
 			return
@@ -328,6 +412,9 @@ func Run(seed int64, n, blocks int, out *trace.W, self string) map[string]int {
 		Replay(h, "r3", nil, 1+len(h.Blocks)/2, emit)
 		// r6: a node that serves RPC requests between the blocks
 		replay(h, "r6", nil, 0, true, emit)
+		// r7: a node that answers queries on other goroutines while it executes and commits each block
+		Replay(h, "r7", nil, 0, emit)
+		stats["requests-served-during-execution"] = int(Served)
 		// r5: the same again after the wall clock has passed the end time of the vesting account "vw"
 		if h.WallEnd != 0 {
 			if d := time.Until(time.Unix(h.WallEnd+1, 0)); d > 0 {
